@@ -313,4 +313,32 @@ def getGroupK (thr div : Nat) (n : Nat) : Option Nat :=
   else if 2 ^ 53 ≤ a ∨ 2 ^ 53 ≤ div then none
   else some (ceilDyadic (fdiv53 a div))
 
+/-! ### Group size (`model/param.go`) -/
+
+/-- `IsGroupMemberCountLegal`. -/
+def isGroupMemberCountLegal (min max cnt : Nat) : Bool := decide (min ≤ cnt) && decide (cnt ≤ max)
+
+/-- `CreateGroupMemberCount(avail)`: `int(math.Ceil(float64(avail / ratio)))` — the division is the
+    INTEGER division (so the ceiling does nothing; exact while the quotient is below `2^53`), capped
+    at `max`, and `0` (no group) below `min`. `none` = integer division by zero (`ratio = 0`) or a
+    quotient outside the exact range. -/
+def createGroupMemberCount (min max ratio avail : Nat) : Option Nat :=
+  if ratio = 0 then none
+  else
+    let cnt := avail / ratio
+    if 2 ^ 53 ≤ cnt then none
+    else if cnt > max then some max
+    else if cnt < min then some 0
+    else some cnt
+
+/-- `genSharePiece(mems)`: the map `id.GetHexString() ↦ ShareSeckey(coeffs, id)`; `mems` are the
+    member ids below `2^256` (distinct ids are distinct keys, `id_key_injective`); an id listed twice
+    is one entry. `none` = `ShareSeckey` panicked (no coefficients). -/
+def genSharePiece (r : Nat) (cs : List Nat) : List Nat → Option (List (Nat × Nat))
+  | [] => some []
+  | x :: rest =>
+    match shareSeckey r cs x, genSharePiece r cs rest with
+    | some v, some m => some ((x, v) :: m.filter (fun e => e.1 != x))
+    | _, _ => none
+
 end Rangers.Model.Shamir
